@@ -1072,8 +1072,31 @@ def _apply_one(cb, op, ap, phase_name):
             raise AssertionError(k)
 
 
-def apply_script(sc):
-    from dagrt.language import CodeBuilder
+_LANG_NOASSERT = [None]
+
+
+def language_without_asserts():
+    """dagrt.language compiled the way `python -O` compiles it (assert statements, and whatever they do, are
+    gone), as a second module object.  Statements and builders made from it work with the ordinary interpreter,
+    generators and transforms."""
+    if _LANG_NOASSERT[0] is None:
+        import types
+        import dagrt.language as real
+        with open(real.__file__) as f:
+            src = f.read()
+        mod = types.ModuleType("dagrt.language")
+        mod.__file__ = real.__file__
+        mod.__package__ = "dagrt"
+        exec(compile(src, real.__file__, "exec", optimize=1), mod.__dict__)
+        _LANG_NOASSERT[0] = mod
+    return _LANG_NOASSERT[0]
+
+
+def apply_script(sc, language=None):
+    """language: the module to take CodeBuilder from (default: dagrt.language)."""
+    if language is None:
+        import dagrt.language as language
+    CodeBuilder = language.CodeBuilder
     ap = Applied()
     for ph in sc.phases:
         with CodeBuilder(ph.name) as cb:
